@@ -376,6 +376,7 @@ func CoordinatorMain(prop, tier string, extra map[string]string) int {
 	var wg sync.WaitGroup
 	results := make([]*Result, n)
 	errs := make([]string, n)
+	killed := make([]bool, n)
 	for i := 0; i < n; i++ {
 		i := i
 		wg.Add(1)
@@ -388,6 +389,10 @@ func CoordinatorMain(prop, tier string, extra map[string]string) int {
 			}
 			cmd := exec.Command(self, args...)
 			cmd.Env = append(os.Environ(), "GOMAXPROCS=2", "VERIF_SCRATCH="+scratch)
+			if os.Getenv("GOMEMLIMIT") == "" {
+				// soft limit per worker: 16 workers must fit the machine whatever GOGC allows between collections
+				cmd.Env = append(cmd.Env, "GOMEMLIMIT=2500MiB")
+			}
 			if os.Getenv("GOGC") == "" {
 				// pogreb allocates a 256 KiB segment table per Open; a lazier collector more than doubles throughput
 				cmd.Env = append(cmd.Env, "GOGC=400")
@@ -398,6 +403,12 @@ func CoordinatorMain(prop, tier string, extra map[string]string) int {
 				tail := string(outb)
 				if len(tail) > 3000 {
 					tail = tail[len(tail)-3000:]
+				}
+				if err != nil && strings.Contains(err.Error(), "signal: killed") {
+					// killed from outside (the kernel's out-of-memory killer, an operator): resource exhaustion of the harness, not
+					// a verdict. The worker's share is reported as not covered.
+					killed[i] = true
+					return
 				}
 				errs[i] = fmt.Sprintf("worker %d produced no result (%v): %s", i, err, tail)
 				return
@@ -416,6 +427,11 @@ func CoordinatorMain(prop, tier string, extra map[string]string) int {
 	distinct := map[string]map[uint64]struct{}{}
 	var harness []string
 	for i, r := range results {
+		if r == nil && killed[i] {
+			merged.Truncated = true
+			merged.Caps = append(merged.Caps, fmt.Sprintf("worker %d of %d was killed from outside (out of memory?): its share of the space is not covered by this run", i, n))
+			continue
+		}
 		if r == nil {
 			harness = append(harness, errs[i])
 			continue
